@@ -22,7 +22,7 @@ RULE = (
 )
 ASSUMPTIONS = ["observed values exactly 0 or 1 are outside the interaction model's transform (logit gives +-inf) and are not generated for it", "both members of a pair use the same seed and the same global numpy seed so that only masked values differ"]
 REQUIRED = {"cli_pairs": {"quick": 1, "thorough": 40}, "pairs_compared": {"quick": 250, "thorough": 3000}, "artefacts_compared": {"quick": 1200, "thorough": 15000}, "training_set_checks": {"quick": 250, "thorough": 3000}, "refusals_checked": {"quick": 2000, "thorough": 25000}}
-N_PAIRS = {"quick": 320, "thorough": 4000}
+N_PAIRS = {"quick": 640, "thorough": 6400}
 
 
 def logit32(x):
